@@ -229,6 +229,14 @@ def model_run(cmd, texts):
 
 
 def mutate_text(rng, text):
+    """(never raises: the spans come from the lexer under test, which may be wrong - then the text is returned unchanged)"""
+    try:
+        return _mutate_text(rng, text)
+    except Exception:
+        return text
+
+
+def _mutate_text(rng, text):
     """token-level mutations of a valid program: delete / duplicate / swap / replace a lexeme"""
     toks = [l.split(' ')[0] for l in py_lex(text) if not l.startswith('#')]
     if not toks: return text
@@ -349,6 +357,13 @@ LIT_SWAPS = ['1', '300', '"s"', 'true', "'c'", '[1, 2]', '[]', '[true]', '["a"]'
 
 
 def type_mutate(rng, text):
+    try:
+        return _type_mutate(rng, text)
+    except Exception:
+        return text
+
+
+def _type_mutate(rng, text):
     """edits that keep the syntax (mostly) valid and disturb typing: swap type keywords, add or
     drop const, swap literal kinds, rename identifiers, drop return statements, duplicate
     declarations, change assignment operators, add array brackets"""
